@@ -201,8 +201,17 @@ theorem abs_unsubscribeMany (s : Subs) (l : List (Nat × Cb)) :
       rw [ih, key]
       rfl
 
-/-- the primitive subscription calls an operation makes on a given state, in order -/
-def prims (E : Env) (n : Net) : Op → List (Prim Cb)
+/-- the operations that are not `MutableMapping` mix-in methods -/
+def Basic : Op → Prop
+  | .popNode _ _ => False
+  | .popItem => False
+  | .clear => False
+  | .update _ => False
+  | .setDefault _ => False
+  | _ => True
+
+/-- the primitive subscription calls a basic operation makes on a given state, in order -/
+def primsB (E : Env) (n : Net) : Op → List (Prim Cb)
   | .subscribe id cb => [.sub id cb]
   | .unsubscribe id cb => [unsubPrim id cb]
   | .setNode o =>
@@ -222,6 +231,7 @@ def prims (E : Env) (n : Net) : Op → List (Prim Cb)
   | .notify _ => []
   | .receive _ => []
   | .scanReset => []
+  | _ => []
 
 theorem notify_subs (E : Env) (n : Net) (f : Frame) : (notify E n f).1.subs = n.subs := by
   unfold notify
@@ -234,20 +244,25 @@ theorem receive_subs (E : Env) (n : Net) (m : BusMsg) : (receive E n m).1.subs =
   · rfl
   · exact notify_subs E n _
 
-theorem step_abs (E : Env) (n : Net) (op : Op) :
-    abs (step E n op).1.subs = Multimap.run (abs n.subs) (prims E n op) := by
+theorem step_abs_basic (E : Env) (n : Net) (op : Op) (hb : Basic op) :
+    abs (step E n op).1.subs = Multimap.run (abs n.subs) (primsB E n op) := by
   cases op with
+  | popNode nid d => simp only [Basic] at hb
+  | popItem => simp only [Basic] at hb
+  | clear => simp only [Basic] at hb
+  | update os => simp only [Basic] at hb
+  | setDefault o => simp only [Basic] at hb
   | subscribe id cb =>
-    simp only [step, prims, Multimap.run, Multimap.step]
+    simp only [step, primsB, Multimap.run, Multimap.step]
     exact abs_subscribe _ _ _
   | unsubscribe id cb =>
     have key := abs_unsubscribe n.subs id cb
-    simp only [step, prims, Multimap.run]
+    simp only [step, primsB, Multimap.run]
     cases hu : unsubscribe n.subs id cb with
     | none => simp only [hu, Option.getD_none] at key; exact key
     | some s => simp only [hu, Option.getD_some] at key; exact key
   | setNode o =>
-    simp only [step, setNode, prims]
+    simp only [step, setNode, primsB]
     cases hn : n.nodes (E.nid o) with
     | none =>
       simp only []
@@ -263,7 +278,7 @@ theorem step_abs (E : Env) (n : Net) (op : Op) :
         simp only [Bool.false_eq_true, if_false, List.append_nil]
         exact abs_unsubscribeMany _ _
   | delNode nid =>
-    simp only [step, delNode, prims]
+    simp only [step, delNode, primsB]
     cases hn : n.nodes nid with
     | none => rfl
     | some old =>
@@ -274,7 +289,7 @@ theorem step_abs (E : Env) (n : Net) (op : Op) :
       · simp only [hd]
         exact abs_unsubscribeMany _ _
   | addSdo o tx =>
-    simp only [step, addSdo, prims]
+    simp only [step, addSdo, primsB]
     by_cases hl : E.isLocal o = true
     · simp [hl, Multimap.run]
     · have hl' : E.isLocal o = false := by simpa using hl
@@ -284,12 +299,230 @@ theorem step_abs (E : Env) (n : Net) (op : Op) :
         exact abs_subscribe _ _ _
       · simp [hl', hr, Multimap.run]
   | notify f =>
-    simp only [step, prims, Multimap.run]
+    simp only [step, primsB, Multimap.run]
     rw [notify_subs]
   | receive m =>
-    simp only [step, prims, Multimap.run]
+    simp only [step, primsB, Multimap.run]
     rw [receive_subs]
   | scanReset => rfl
+
+
+theorem run_app (E : Env) (n : Net) (a b : List Op) :
+    run E n (a ++ b) = ((run E (run E n a).1 b).1, (run E n a).2 ++ (run E (run E n a).1 b).2) := by
+  induction a generalizing n with
+  | nil => simp [run]
+  | cons op r ih => simp [run, ih]
+
+/-! ## the mapping mix-ins as sequences of `__setitem__` / `__delitem__` calls -/
+
+/-- all primitive calls of a history of basic operations -/
+def traceB (E : Env) : Net → List Op → List (Prim Cb)
+  | _, [] => []
+  | n, op :: r => primsB E n op ++ traceB E (step E n op).1 r
+
+theorem run_abs_basic (E : Env) (ops : List Op) (n : Net) (hb : ∀ op ∈ ops, Basic op) :
+    abs (run E n ops).1.subs = Multimap.run (abs n.subs) (traceB E n ops) := by
+  induction ops generalizing n with
+  | nil => rfl
+  | cons op r ih =>
+    simp only [run, traceB]
+    rw [ih _ (fun x hx => hb x (by simp [hx])), step_abs_basic E n op (hb op (by simp)), run_append]
+
+/-- the `self[node.id] = node` calls `update` makes: up to and including the first that raises -/
+def updateOps (E : Env) : Net → List Nat → List Op
+  | _, [] => []
+  | n, o :: r => .setNode o :: (if (setNode E n o).2 then updateOps E (setNode E n o).1 r else [])
+
+/-- the `del self[key]` calls `clear` makes: the first key of the iteration, again and again,
+    up to and including the first call that raises -/
+def clearOps (E : Env) : Nat → Net → List Op
+  | 0, _ => []
+  | fuel + 1, n =>
+    match n.keys with
+    | [] => []
+    | k :: _ => .delNode k :: (if (delNode E n k).2 then clearOps E fuel (delNode E n k).1 else [])
+
+/-- the `__setitem__` / `__delitem__` calls an operation consists of (a basic operation: itself) -/
+def itemOps (E : Env) (n : Net) : Op → List Op
+  | .popNode nid _ => [.delNode nid]
+  | .popItem => match n.keys with
+    | [] => []
+    | k :: _ => [.delNode k]
+  | .clear => clearOps E (n.keys.length + 1) n
+  | .update os => updateOps E n os
+  | .setDefault o => match n.nodes (E.nid o) with
+    | some _ => []
+    | none => [.setNode o]
+  | op => [op]
+
+theorem popNode_fst (E : Env) (n : Net) (nid : Nat) (d : Bool) :
+    (popNode E n nid d).1 = (delNode E n nid).1 := by
+  unfold popNode
+  cases hn : n.nodes nid with
+  | none => simp [delNode, hn]
+  | some o => rfl
+
+theorem updateNodes_expand (E : Env) (os : List Nat) (n : Net) :
+    (updateNodes E n os).1 = (run E n (updateOps E n os)).1 := by
+  induction os generalizing n with
+  | nil => rfl
+  | cons o r ih =>
+    simp only [updateNodes, updateOps, run, step]
+    by_cases h : (setNode E n o).2 = true
+    · simp only [h, if_true]
+      exact ih _
+    · simp [h, run]
+
+theorem clearLoop_expand (E : Env) (fuel : Nat) (n : Net) :
+    (clearLoop E fuel n).1 = (run E n (clearOps E fuel n)).1 := by
+  induction fuel generalizing n with
+  | zero => rfl
+  | succ f ih =>
+    cases hk : n.keys with
+    | nil => simp [clearLoop, clearOps, popItem, hk, run]
+    | cons k r =>
+      by_cases h : (delNode E n k).2 = true
+      · simp only [clearLoop, clearOps, popItem, hk, h, if_true, run, step]
+        exact ih _
+      · simp [clearLoop, clearOps, popItem, hk, h, run, step]
+
+/-- every operation changes the state exactly as the `__setitem__` / `__delitem__` calls it is
+    made of -/
+theorem step_itemOps (E : Env) (n : Net) (op : Op) :
+    (step E n op).1 = (run E n (itemOps E n op)).1 := by
+  cases op with
+  | popNode nid d => simp only [step, itemOps, run]; exact popNode_fst E n nid d
+  | popItem =>
+    simp only [step, itemOps, popItem]
+    cases hk : n.keys with
+    | nil => rfl
+    | cons k r => simp [run, step]
+  | clear => simp only [step, itemOps, clearNodes]; exact clearLoop_expand E _ n
+  | update os => simp only [step, itemOps]; exact updateNodes_expand E os n
+  | setDefault o =>
+    simp only [step, itemOps, setDefault]
+    cases hn : n.nodes (E.nid o) with
+    | none => simp [run, step]
+    | some old => rfl
+  | subscribe id cb => simp [itemOps, run]
+  | unsubscribe id cb => simp [itemOps, run]
+  | setNode o => simp [itemOps, run]
+  | delNode nid => simp [itemOps, run]
+  | addSdo o tx => simp [itemOps, run]
+  | notify f => simp [itemOps, run]
+  | receive m => simp [itemOps, run]
+  | scanReset => simp [itemOps, run]
+
+/-- the operation may file node object `o` in the network -/
+def Adds (o : Nat) : Op → Prop
+  | .setNode o' => o' = o
+  | .update os => o ∈ os
+  | .setDefault o' => o' = o
+  | _ => False
+
+theorem updateOps_mem (E : Env) (os : List Nat) (n : Net) (x : Op) (hx : x ∈ updateOps E n os) :
+    ∃ o ∈ os, x = .setNode o := by
+  induction os generalizing n with
+  | nil => simp [updateOps] at hx
+  | cons o r ih =>
+    simp only [updateOps, List.mem_cons] at hx
+    rcases hx with rfl | hx
+    · exact ⟨o, by simp, rfl⟩
+    · split at hx
+      · obtain ⟨o', ho', rfl⟩ := ih _ hx
+        exact ⟨o', by simp [ho'], rfl⟩
+      · simp at hx
+
+theorem clearOps_mem (E : Env) (fuel : Nat) (n : Net) (x : Op) (hx : x ∈ clearOps E fuel n) :
+    ∃ k, x = .delNode k := by
+  induction fuel generalizing n with
+  | zero => simp [clearOps] at hx
+  | succ f ih =>
+    simp only [clearOps] at hx
+    split at hx
+    · simp at hx
+    · simp only [List.mem_cons] at hx
+      rcases hx with rfl | hx
+      · exact ⟨_, rfl⟩
+      · split at hx
+        · exact ih _ hx
+        · simp at hx
+
+/-- what an operation is made of: itself (a basic operation), `network[o.id] = o` for an object
+    the operation names, or `del network[k]` -/
+theorem itemOps_mem (E : Env) (n : Net) (op x : Op) (hx : x ∈ itemOps E n op) :
+    (x = op ∧ Basic op) ∨ (∃ o, x = .setNode o ∧ Adds o op) ∨ (∃ k, x = .delNode k) := by
+  cases op with
+  | popNode nid d =>
+    simp only [itemOps, List.mem_singleton] at hx
+    exact Or.inr (Or.inr ⟨nid, hx⟩)
+  | popItem =>
+    simp only [itemOps] at hx
+    split at hx
+    · simp at hx
+    · simp only [List.mem_singleton] at hx
+      exact Or.inr (Or.inr ⟨_, hx⟩)
+  | clear =>
+    simp only [itemOps] at hx
+    exact Or.inr (Or.inr (clearOps_mem E _ n x hx))
+  | update os =>
+    simp only [itemOps] at hx
+    obtain ⟨o, ho, rfl⟩ := updateOps_mem E os n x hx
+    exact Or.inr (Or.inl ⟨o, rfl, ho⟩)
+  | setDefault o =>
+    simp only [itemOps] at hx
+    split at hx
+    · simp at hx
+    · simp only [List.mem_singleton] at hx
+      exact Or.inr (Or.inl ⟨o, hx, rfl⟩)
+  | subscribe id cb => simp only [itemOps, List.mem_singleton] at hx; exact Or.inl ⟨hx, trivial⟩
+  | unsubscribe id cb => simp only [itemOps, List.mem_singleton] at hx; exact Or.inl ⟨hx, trivial⟩
+  | setNode o => simp only [itemOps, List.mem_singleton] at hx; exact Or.inl ⟨hx, trivial⟩
+  | delNode nid => simp only [itemOps, List.mem_singleton] at hx; exact Or.inl ⟨hx, trivial⟩
+  | addSdo o tx => simp only [itemOps, List.mem_singleton] at hx; exact Or.inl ⟨hx, trivial⟩
+  | notify f => simp only [itemOps, List.mem_singleton] at hx; exact Or.inl ⟨hx, trivial⟩
+  | receive m => simp only [itemOps, List.mem_singleton] at hx; exact Or.inl ⟨hx, trivial⟩
+  | scanReset => simp only [itemOps, List.mem_singleton] at hx; exact Or.inl ⟨hx, trivial⟩
+
+theorem itemOps_basic (E : Env) (n : Net) (op x : Op) (hx : x ∈ itemOps E n op) : Basic x := by
+  rcases itemOps_mem E n op x hx with ⟨rfl, h⟩ | ⟨o, rfl, _⟩ | ⟨k, rfl⟩
+  · exact h
+  · trivial
+  · trivial
+
+/-- a mix-in method consists of `__setitem__` / `__delitem__` calls only -/
+theorem itemOps_composite (E : Env) (n : Net) (op x : Op) (hop : ¬ Basic op)
+    (hx : x ∈ itemOps E n op) : (∃ o, x = .setNode o) ∨ (∃ k, x = .delNode k) := by
+  rcases itemOps_mem E n op x hx with ⟨_, h⟩ | ⟨o, rfl, _⟩ | ⟨k, rfl⟩
+  · exact absurd h hop
+  · exact Or.inl ⟨o, rfl⟩
+  · exact Or.inr ⟨k, rfl⟩
+
+/-- a state property kept by every basic operation (under a side condition `C`) is kept by every
+    operation whose `__setitem__` / `__delitem__` calls satisfy `C` -/
+theorem run_lift (E : Env) (P : Net → Prop) (C : Op → Prop)
+    (hb : ∀ n op, Basic op → C op → P n → P (step E n op).1)
+    (ops : List Op) (n : Net) (hC : ∀ x ∈ ops, Basic x ∧ C x) (hP : P n) : P (run E n ops).1 := by
+  induction ops generalizing n with
+  | nil => exact hP
+  | cons op r ih =>
+    simp only [run]
+    exact ih _ (fun x hx => hC x (by simp [hx]))
+      (hb n op (hC op (by simp)).1 (hC op (by simp)).2 hP)
+
+theorem step_lift (E : Env) (P : Net → Prop) (C : Op → Prop)
+    (hb : ∀ n op, Basic op → C op → P n → P (step E n op).1)
+    (n : Net) (op : Op) (hC : ∀ x ∈ itemOps E n op, C x) (hP : P n) : P (step E n op).1 := by
+  rw [step_itemOps]
+  exact run_lift E P C hb _ n (fun x hx => ⟨itemOps_basic E n op x hx, hC x hx⟩) hP
+
+/-- the primitive subscription calls an operation makes on a given state, in order -/
+def prims (E : Env) (n : Net) (op : Op) : List (Prim Cb) := traceB E n (itemOps E n op)
+
+theorem step_abs (E : Env) (n : Net) (op : Op) :
+    abs (step E n op).1.subs = Multimap.run (abs n.subs) (prims E n op) := by
+  rw [step_itemOps]
+  exact run_abs_basic E _ n (itemOps_basic E n op)
 
 /-- all primitive calls of a history, in order -/
 def trace (E : Env) : Net → List Op → List (Prim Cb)
@@ -303,12 +536,6 @@ theorem run_abs (E : Env) (n : Net) (ops : List Op) :
   | cons op r ih =>
     simp only [run, trace]
     rw [ih, step_abs, run_append]
-
-theorem run_app (E : Env) (n : Net) (a b : List Op) :
-    run E n (a ++ b) = ((run E (run E n a).1 b).1, (run E n a).2 ++ (run E (run E n a).1 b).2) := by
-  induction a generalizing n with
-  | nil => simp [run]
-  | cons op r ih => simp [run, ih]
 
 /-- what `Network.__init__` has done, as multimap operations -/
 def initPrims : List (Prim Cb) := initLssIds.map fun id => .sub id .lss
@@ -566,14 +793,15 @@ theorem inv_detach (E : Env) (n : Net) (hI : Inv E n) (old : Nat) :
   have h2 := assoc_sub_remove E n.extra old _ h1
   exact unsubscribeMany_removes n.subs _ hI.nodup hok _ h2 hm
 
-theorem inv_attach (E : Env) (n : Net) (s1 : Subs) (o : Nat)
+theorem inv_attach (E : Env) (n : Net) (s1 : Subs) (o : Nat) (ks : List Nat)
     (hnd : NodupAll (abs s1))
     (hkeyed : ∀ nid o', n.nodes nid = some o' → E.nid o' = nid)
     (hown : ∀ id o' h, Cb.node o' h ∈ abs s1 id →
       E.nid o' ≠ E.nid o ∧ n.nodes (E.nid o') = some o' ∧
         (id, Cb.node o' h) ∈ assocCalls E n.extra o') :
     Inv E { n with subs := subscribeMany s1 (assocCalls E n.extra o)
-                   nodes := setNodes n.nodes (E.nid o) (some o) } := by
+                   nodes := setNodes n.nodes (E.nid o) (some o)
+                   keys := ks } := by
   refine ⟨nodup_subscribeMany _ _ hnd, ?_, ?_⟩
   · intro nid o' h
     simp only [setNodes] at h
@@ -596,9 +824,14 @@ theorem inv_attach (E : Env) (n : Net) (s1 : Subs) (o : Nat)
       refine ⟨?_, hm⟩
       simp [setNodes]
 
-theorem inv_step (E : Env) (n : Net) (op : Op) (hI : Inv E n) (hop : NoManualNodeSub op) :
-    Inv E (step E n op).1 := by
+theorem inv_step_basic (E : Env) (n : Net) (op : Op) (hb : Basic op) (hI : Inv E n)
+    (hop : NoManualNodeSub op) : Inv E (step E n op).1 := by
   cases op with
+  | popNode nid d => simp only [Basic] at hb
+  | popItem => simp only [Basic] at hb
+  | clear => simp only [Basic] at hb
+  | update os => simp only [Basic] at hb
+  | setDefault o => simp only [Basic] at hb
   | subscribe id cb =>
     simp only [step]
     refine ⟨?_, hI.keyed, ?_⟩
@@ -630,7 +863,7 @@ theorem inv_step (E : Env) (n : Net) (op : Op) (hI : Inv E n) (hop : NoManualNod
     cases hn : n.nodes (E.nid o) with
     | none =>
       simp only []
-      apply inv_attach E n n.subs o hI.nodup hI.keyed
+      apply inv_attach E n n.subs o _ hI.nodup hI.keyed
       intro id o' h hm
       obtain ⟨hreg, hmem⟩ := hI.owned id o' h hm
       refine ⟨?_, hreg, hmem⟩
@@ -642,7 +875,7 @@ theorem inv_step (E : Env) (n : Net) (op : Op) (hI : Inv E n) (hop : NoManualNod
       obtain ⟨hsub, hnd, hgone⟩ := inv_detach E n hI old
       by_cases hd : (detach E n old).2 = true
       · simp only [hd, if_true]
-        apply inv_attach E n (detach E n old).1 o hnd hI.keyed
+        apply inv_attach E n (detach E n old).1 o _ hnd hI.keyed
         intro id o' h hm
         obtain ⟨hreg, hmem⟩ := hI.owned id o' h (hsub _ _ hm)
         refine ⟨?_, hreg, hmem⟩
@@ -722,6 +955,18 @@ theorem inv_step (E : Env) (n : Net) (op : Op) (hI : Inv E n) (hop : NoManualNod
       by rw [h1, h2, h3]; exact hI.owned⟩
   | scanReset => exact ⟨hI.nodup, hI.keyed, hI.owned⟩
 
+/-- the invariant survives every operation, the mapping mix-ins included (they are made of
+    `__setitem__` / `__delitem__` calls) -/
+theorem inv_step (E : Env) (n : Net) (op : Op) (hI : Inv E n) (hop : NoManualNodeSub op) :
+    Inv E (step E n op).1 := by
+  apply step_lift E (Inv E) NoManualNodeSub
+    (fun n op hb hc hP => inv_step_basic E n op hb hP hc) n op _ hI
+  intro x hx
+  rcases itemOps_mem E n op x hx with ⟨rfl, _⟩ | ⟨o, rfl, _⟩ | ⟨k, rfl⟩
+  · exact hop
+  · trivial
+  · trivial
+
 theorem inv_run (E : Env) (ops : List Op) (n : Net) (hI : Inv E n)
     (hops : ∀ op ∈ ops, NoManualNodeSub op) : Inv E (run E n ops).1 := by
   induction ops generalizing n with
@@ -729,4 +974,200 @@ theorem inv_run (E : Env) (ops : List Op) (n : Net) (hI : Inv E n)
   | cons op r ih =>
     simp only [run]
     exact ih _ (inv_step E n op hI (hops op (by simp))) (fun x hx => hops x (by simp [hx]))
+
+/-! ## the node table: `Network.nodes` and its iteration order -/
+
+theorem notify_keys (E : Env) (n : Net) (f : Frame) : (notify E n f).1.keys = n.keys := by
+  unfold notify
+  simp only []
+  split <;> rfl
+
+theorem receive_keys (E : Env) (n : Net) (m : BusMsg) : (receive E n m).1.keys = n.keys := by
+  unfold receive
+  split
+  · rfl
+  · exact notify_keys E n _
+
+/-- only `__setitem__` / `__delitem__` touch the node table -/
+theorem basic_other_table (E : Env) (n : Net) (op : Op) (hb : Basic op)
+    (h1 : ∀ o, op ≠ .setNode o) (h2 : ∀ k, op ≠ .delNode k) :
+    (step E n op).1.nodes = n.nodes ∧ (step E n op).1.keys = n.keys := by
+  cases op with
+  | popNode nid d => simp only [Basic] at hb
+  | popItem => simp only [Basic] at hb
+  | clear => simp only [Basic] at hb
+  | update os => simp only [Basic] at hb
+  | setDefault o => simp only [Basic] at hb
+  | subscribe id cb => exact ⟨rfl, rfl⟩
+  | unsubscribe id cb =>
+    simp only [step]
+    split <;> exact ⟨rfl, rfl⟩
+  | setNode o => exact absurd rfl (h1 o)
+  | delNode k => exact absurd rfl (h2 k)
+  | addSdo o tx =>
+    simp only [step, addSdo]
+    split <;> exact ⟨rfl, rfl⟩
+  | notify f => exact ⟨(notify_frame E n f).2.1, notify_keys E n f⟩
+  | receive m => exact ⟨(receive_frame E n m).2.1, receive_keys E n m⟩
+  | scanReset => exact ⟨rfl, rfl⟩
+
+/-- `network[o.id] = o`: stored under its own id (a new key goes last) — or, when the removal of
+    the old node raised, nothing stored -/
+theorem setNode_table (E : Env) (n : Net) (o : Nat) :
+    ((setNode E n o).2 = true →
+      (setNode E n o).1.nodes = setNodes n.nodes (E.nid o) (some o) ∧
+      (setNode E n o).1.keys = insertKey n.keys (E.nid o)) ∧
+    ((setNode E n o).2 = false →
+      (setNode E n o).1.nodes = n.nodes ∧ (setNode E n o).1.keys = n.keys) := by
+  unfold setNode
+  cases hn : n.nodes (E.nid o) with
+  | none => simp
+  | some old =>
+    simp only []
+    by_cases hd : (detach E n old).2 = true
+    · simp [hd]
+    · simp [hd]
+
+/-- `del network[k]`: the key is gone — or, when the node id is free or the removal raised, nothing
+    changed in the table -/
+theorem delNode_table (E : Env) (n : Net) (k : Nat) :
+    ((delNode E n k).2 = true →
+      (delNode E n k).1.nodes = setNodes n.nodes k none ∧
+      (delNode E n k).1.keys = n.keys.erase k ∧ n.nodes k ≠ none) ∧
+    ((delNode E n k).2 = false →
+      (delNode E n k).1.nodes = n.nodes ∧ (delNode E n k).1.keys = n.keys) := by
+  unfold delNode
+  cases hn : n.nodes k with
+  | none => simp
+  | some old =>
+    simp only []
+    by_cases hd : (detach E n old).2 = true
+    · simp [hd]
+    · simp [hd]
+
+/-- `len`, `in` and iteration tell the same story as `network[id]`: the iteration lists every node
+    id that holds a node, once -/
+structure KeysInv (n : Net) : Prop where
+  nodup : n.keys.Nodup
+  mem : ∀ nid, nid ∈ n.keys ↔ n.nodes nid ≠ none
+
+theorem keysInv_init : KeysInv init := ⟨by simp [init], by intro nid; simp [init]⟩
+
+theorem keysInv_setNode (n : Net) (h : KeysInv n) (nid o : Nat) (m : Net)
+    (h1 : m.nodes = setNodes n.nodes nid (some o)) (h2 : m.keys = insertKey n.keys nid) :
+    KeysInv m := by
+  refine ⟨?_, ?_⟩
+  · rw [h2]
+    unfold insertKey
+    split
+    · exact h.nodup
+    · rename_i hk
+      rw [List.nodup_append]
+      refine ⟨h.nodup, by simp, ?_⟩
+      intro a ha b hb
+      simp only [List.mem_singleton] at hb
+      subst hb
+      intro e
+      subst e
+      exact hk ha
+  · intro j
+    rw [h1, h2]
+    simp only [insertKey, setNodes]
+    by_cases hj : j = nid
+    · subst hj
+      split <;> simp [*]
+    · have := h.mem j
+      split <;> simp [hj, this]
+
+theorem keysInv_delNode (n : Net) (h : KeysInv n) (k : Nat) (m : Net)
+    (h1 : m.nodes = setNodes n.nodes k none) (h2 : m.keys = n.keys.erase k) : KeysInv m := by
+  refine ⟨by rw [h2]; exact h.nodup.erase k, ?_⟩
+  intro j
+  rw [h1, h2, h.nodup.mem_erase_iff]
+  simp only [setNodes]
+  by_cases hj : j = k
+  · simp [hj]
+  · simp [hj, h.mem j]
+
+theorem keysInv_step_basic (E : Env) (n : Net) (op : Op) (hb : Basic op) (h : KeysInv n) :
+    KeysInv (step E n op).1 := by
+  by_cases h1 : ∃ o, op = .setNode o
+  · obtain ⟨o, rfl⟩ := h1
+    simp only [step]
+    cases hok : (setNode E n o).2 with
+    | true =>
+      obtain ⟨a, b⟩ := (setNode_table E n o).1 hok
+      exact keysInv_setNode n h _ o _ a b
+    | false =>
+      obtain ⟨a, b⟩ := (setNode_table E n o).2 hok
+      exact ⟨by rw [b]; exact h.nodup, by intro j; rw [a, b]; exact h.mem j⟩
+  · by_cases h2 : ∃ k, op = .delNode k
+    · obtain ⟨k, rfl⟩ := h2
+      simp only [step]
+      cases hok : (delNode E n k).2 with
+      | true =>
+        obtain ⟨a, b, _⟩ := (delNode_table E n k).1 hok
+        exact keysInv_delNode n h k _ a b
+      | false =>
+        obtain ⟨a, b⟩ := (delNode_table E n k).2 hok
+        exact ⟨by rw [b]; exact h.nodup, by intro j; rw [a, b]; exact h.mem j⟩
+    · obtain ⟨a, b⟩ := basic_other_table E n op hb (fun o e => h1 ⟨o, e⟩) (fun k e => h2 ⟨k, e⟩)
+      exact ⟨by rw [b]; exact h.nodup, by intro j; rw [a, b]; exact h.mem j⟩
+
+theorem keysInv_step (E : Env) (n : Net) (op : Op) (h : KeysInv n) : KeysInv (step E n op).1 :=
+  step_lift E KeysInv (fun _ => True) (fun n op hb _ hP => keysInv_step_basic E n op hb hP) n op
+    (fun _ _ => trivial) h
+
+theorem keysInv_run (E : Env) (ops : List Op) (n : Net) (h : KeysInv n) :
+    KeysInv (run E n ops).1 := by
+  induction ops generalizing n with
+  | nil => exact h
+  | cons op r ih =>
+    simp only [run]
+    exact ih _ (keysInv_step E n op h)
+
+/-! ## `update`: what the table holds afterwards -/
+
+theorem setNode_nodes_other (E : Env) (n : Net) (o nid : Nat) (h : nid ≠ E.nid o) :
+    (setNode E n o).1.nodes nid = n.nodes nid := by
+  cases hok : (setNode E n o).2 with
+  | true => rw [((setNode_table E n o).1 hok).1]; simp [setNodes, h]
+  | false => rw [((setNode_table E n o).2 hok).1]
+
+theorem updateNodes_nodes_other (E : Env) (os : List Nat) (n : Net) (nid : Nat)
+    (h : ∀ o ∈ os, E.nid o ≠ nid) : (updateNodes E n os).1.nodes nid = n.nodes nid := by
+  induction os generalizing n with
+  | nil => rfl
+  | cons o r ih =>
+    have ho : nid ≠ E.nid o := fun e => h o (by simp) e.symm
+    simp only [updateNodes]
+    split
+    · rw [ih _ (fun x hx => h x (by simp [hx]))]
+      exact setNode_nodes_other E n o nid ho
+    · exact setNode_nodes_other E n o nid ho
+
+/-- after an `update` that returned normally, every node id it names holds one of the objects it
+    was given -/
+theorem updateNodes_nodes (E : Env) (os : List Nat) (n : Net) (nid : Nat)
+    (hok : (updateNodes E n os).2 = true) (h : ∃ o ∈ os, E.nid o = nid) :
+    ∃ o ∈ os, (updateNodes E n os).1.nodes nid = some o := by
+  induction os generalizing n with
+  | nil => simp at h
+  | cons o r ih =>
+    simp only [updateNodes] at hok ⊢
+    by_cases hs : (setNode E n o).2 = true
+    · simp only [hs, if_true] at hok ⊢
+      by_cases hr : ∃ o' ∈ r, E.nid o' = nid
+      · obtain ⟨o'', ho'', hn⟩ := ih _ hok hr
+        exact ⟨o'', by simp [ho''], hn⟩
+      · have ho : E.nid o = nid := by
+          obtain ⟨x, hx, hxn⟩ := h
+          rcases List.mem_cons.mp hx with rfl | hx
+          · exact hxn
+          · exact absurd ⟨x, hx, hxn⟩ hr
+        refine ⟨o, by simp, ?_⟩
+        rw [updateNodes_nodes_other E r _ nid (fun x hx e => hr ⟨x, hx, e⟩),
+          ((setNode_table E n o).1 hs).1]
+        simp [setNodes, ho]
+    · simp [hs] at hok
 end Canopen.C10
